@@ -138,6 +138,7 @@ class SimpleAdapter:
             'eioUp': c.eio.state == 'connected',
             'nsUp': NS in c.namespaces,
             'results': [list(r) for r in self.results],
+            'woken': False,
             'choices': sorted('%s:%s' % x for x in self.sched.choices()),
         }
 
